@@ -422,6 +422,18 @@ func (x *Exec) unknownFuncCall(fr *Frame, st *State, c *ssa.CallCommon, fv Val, 
 	}
 	if x.topFC != nil {
 		// a function-typed parameter called by the function under verification: "abstract call param.<name> pure"
+		if ln := localFuncNameOf(c.Value); ln != "" {
+			// a function value held in a local variable (e.g. looked up in a registry): "abstract call local.<name> pure"
+			for _, pat := range x.topFC.Abstract {
+				fs := strings.Fields(pat)
+				if len(fs) >= 3 && fs[0] == "call" && fs[2] == "pure" && fs[1] == "local."+ln {
+					x.u.Trust(fmt.Sprintf("%s: the function held in the local variable %q is assumed to leave the modelled state unchanged (abstract call … pure)", x.topName, ln))
+					r := x.u.FreshVal("abs", rt)
+					x.u.assumeValExisting(st, r)
+					return r, nil
+				}
+			}
+		}
 		if pn := paramNameOf(c.Value); pn != "" {
 			key := "param." + pn
 			for _, pat := range x.topFC.Abstract {
@@ -1087,6 +1099,16 @@ func paramNameOf(v ssa.Value) string {
 					return al.Comment
 				}
 			}
+		}
+	}
+	return ""
+}
+
+// localFuncNameOf: the source name of the local variable a called function value is loaded from ("" otherwise).
+func localFuncNameOf(v ssa.Value) string {
+	if t, ok := v.(*ssa.UnOp); ok {
+		if al, ok := t.X.(*ssa.Alloc); ok && al.Comment != "" {
+			return al.Comment
 		}
 	}
 	return ""
